@@ -80,6 +80,7 @@ def gen_inputs(ctx):
     for i in [2 ** 31, 2 ** 31 + 44, 2 ** 32 - 1] + [rng.randrange(2 ** 31, 2 ** 32) for _ in range(2 if q else 20)]:
         k, kc = rng.choice(sc)
         out.append(("MisloadedPub", {"par": pub_parent(rng, k, depth=rng.choice([0, 3])), "i": idx4(i)}, ("refuse-misloaded", i == 2 ** 31)))
+        out.append(("MisloadedPub", {"par": pub_parent(rng, k, depth=rng.choice([0, 3])), "i": idx4(i), "via": "subclass"}, ("refuse-subclass", i == 2 ** 31)))
     # only the public child is kept by the caller (the parent object is gone before anything is printed)
     import copy
     base = [x for x in out if x[0] == "CkdPub" and "prf" not in x[1] and x[2][0] == "pub"]
